@@ -21,21 +21,22 @@ Definition xrow := (Z * bool)%type.            (* (identity, passes the post-fil
 Definition xkeep (r : xrow) : bool := snd r.
 
 (* ---- black box: iteration, count, any *)
-Definition exec_case := ((Z * Z * bool * option Z) * list xrow * (list Z * list (option Z) * list (option bool)))%type.
+(* observed: iteration (None = InvalidQueryError), counts and anys (None = InvalidQueryError) of one results object *)
+Definition exec_case := ((Z * Z * bool * option Z) * list xrow * (option (list Z) * list (option Z) * list (option bool)))%type.
 
-Definition model_exec (c : Z * Z * bool * option Z) (rows : list xrow) : list Z * list (option Z) * list (option bool) :=
+Definition model_exec (c : Z * Z * bool * option Z) (rows : list xrow) : option (list Z) * list (option Z) * list (option bool) :=
   let '(rp, f, pp, lim) := c in
   let cf := {| raw_page := rp; factor := f |} in
-  (map fst (iterate cf pp xkeep lim rows),
-   [res_opt (count pp xkeep lim rows true true); res_opt (count pp xkeep lim rows true false);
-    res_opt (count pp xkeep lim rows false false)],
-   [res_opt (any pp xkeep rows true true); res_opt (any pp xkeep rows true false);
-    res_opt (any pp xkeep rows false false); res_opt (any pp xkeep rows false true)]).
+  (option_map (map fst) (res_opt (results_iterate cf pp xkeep lim rows)),
+   [res_opt (results_count pp xkeep lim rows true true); res_opt (results_count pp xkeep lim rows true false);
+    res_opt (results_count pp xkeep lim rows false false)],
+   [res_opt (results_any pp xkeep lim rows true true); res_opt (results_any pp xkeep lim rows true false);
+    res_opt (results_any pp xkeep lim rows false false); res_opt (results_any pp xkeep lim rows false true)]).
 
 Definition chk_exec (k : exec_case) : bool :=
   let '(c, rows, (ids, counts, anys)) := k in
   let '(mi, mc, ma) := model_exec c rows in
-  leqb Z.eqb ids mi && leqb (oeqb Z.eqb) counts mc && leqb (oeqb Bool.eqb) anys ma.
+  oeqb (leqb Z.eqb) ids mi && leqb (oeqb Z.eqb) counts mc && leqb (oeqb Bool.eqb) anys ma.
 
 (* ---- structure: one entry per Postprocessing.apply call of the iteration: (limit before, rows in, rows out) *)
 Fixpoint trace (active : bool) (lim : option Z) (pgs : list (list xrow)) : list (option Z * Z * Z) :=
